@@ -461,3 +461,62 @@ Qed.
 End TwoPhase.
 
 Print Assumptions olf_model_two_phase_indep.
+
+(* ------------------------------------------------------------------ *)
+(* non-vacuity: a multi-line string indented by 3 blanks (the implementation's trace of
+     begin
+       S := '''
+        abc
+        def
+        ''';
+       Foo(S);
+     end.
+   ): under indentation 2 / continuation 4 and under indentation 4 / continuation 8 the string is re-indented and its
+   line (line 1) is reflowed *)
+Definition ml2_l : list ftoken :=
+  [(mkToken [] [98; 101; 103; 105; 110] (TT_Keyword KK_Begin), mkFmt false 0 0 0 0);
+   (mkToken [] [83] TT_Identifier, mkFmt false 1 0 0 1);
+   (mkToken [] [58; 61] (TT_Op OK_Assign), mkFmt false 0 0 0 1);
+   (mkToken [] [39; 39; 39; 10; 32; 32; 32; 97; 98; 99; 10; 32; 32; 32; 100; 101; 102; 10; 32; 32; 32; 39; 39; 39] (TT_TextLiteral TK_MultiLine), mkFmt false 0 0 0 1);
+   (mkToken [] [59] (TT_Op OK_Semicolon), mkFmt false 0 0 0 0);
+   (mkToken [] [70; 111; 111] TT_Identifier, mkFmt false 1 0 0 1);
+   (mkToken [] [40] (TT_Op OK_LParen), mkFmt false 0 0 0 0);
+   (mkToken [] [83] TT_Identifier, mkFmt false 0 0 0 0);
+   (mkToken [] [41] (TT_Op OK_RParen), mkFmt false 0 0 0 0);
+   (mkToken [] [59] (TT_Op OK_Semicolon), mkFmt false 0 0 0 0);
+   (mkToken [] [101; 110; 100] (TT_Keyword KK_End), mkFmt false 1 0 0 1);
+   (mkToken [] [46] (TT_Op OK_Dot), mkFmt false 0 0 0 0);
+   (mkToken [] [] TT_Eof, mkFmt false 1 0 0 0)].
+Definition ml2_lines : list lline :=
+  [mkLine LLT_Unknown 0 None [0]%nat;
+   mkLine LLT_Assignment 1 None [1; 2; 3; 4]%nat;
+   mkLine LLT_Unknown 1 None [5; 6; 7; 8; 9]%nat;
+   mkLine LLT_Unknown 0 None [10; 11]%nat;
+   mkLine LLT_Eof 0 None [12]%nat].
+
+Definition ml2_rsA : rsettings := mkRS [10] (repeat 32 2) (repeat 32 4).
+Definition ml2_rsB : rsettings := mkRS [10] (repeat 32 4) (repeat 32 8).
+Definition ml2_WA : wsettings := mkWS 1000000000 200 false 2 4.
+Definition ml2_WB : wsettings := mkWS 1000000000 200 false 4 8.
+
+Example ml2_reflow : olf_reflow ml2_rsA ml2_WA ml2_lines ml2_l = [1%nat] /\ olf_reflow ml2_rsB ml2_WB ml2_lines ml2_l = [1%nat].
+Proof. vm_compute. split; reflexivity. Qed.
+
+Example ml2_two_phase :
+  map snd (fst (fst (olf_model ml2_rsA ml2_WA true ml2_lines ml2_l))) = map snd (fst (fst (olf_model ml2_rsB ml2_WB true ml2_lines ml2_l))).
+Proof.
+  refine (proj1 (olf_model_two_phase_indep ml2_rsA ml2_rsB ml2_WA ml2_WB eq_refl eq_refl ml2_lines _ ml2_l 100 100 _ _ _ _ _ _ _)).
+  - vm_compute. reflexivity.
+  - vm_compute. intros H; discriminate.
+  - vm_compute. intros H; discriminate.
+  - vm_compute. intros H; discriminate.
+  - vm_compute. intros H; discriminate.
+  - vm_compute. intros H; discriminate.
+  - vm_compute. intros H; discriminate.
+  - vm_compute. reflexivity.
+Qed.
+
+(* the token contents do differ (the string carries the indentation of its setting): only the counters agree *)
+Example ml2_contents_differ :
+  map fst (fst (fst (olf_model ml2_rsA ml2_WA true ml2_lines ml2_l))) <> map fst (fst (fst (olf_model ml2_rsB ml2_WB true ml2_lines ml2_l))).
+Proof. vm_compute. intros H. discriminate. Qed.
